@@ -1,7 +1,8 @@
 """C09 - cell formatting follows the data cell.
 
 Space (exhaustive): every body attribute (13 text attributes, 4 border styles, border width, 4 border colours,
-vertical alignment, cell height, cell justification) x shape {scalar, 1 x ncol, nrow x ncol} with values
+vertical alignment, cell height, cell justification) x shape {scalar, 1 x ncol, nrow x ncol, row pattern
+R x ncol with 1 < R < nrow that is recycled (original row r shows pattern[r mod R])} with values
 f(r, c) = alphabet[(2r + c) mod 3] (neighbours differ in both directions, f is not symmetric in r and c)
 x rows {1, 4, 9} (thorough: .. 40) x nrow from "one page" down to "one row per page" x removal of 0..2
 columns at any position by page_by / subline_by (three strategies) ; one attribute at a time (quick),
@@ -104,7 +105,14 @@ def attr_value(attr, shape, alpha, n, ncol):
         if attr in ROW_ATTRS:
             return [[fvalue(attr, alpha, 1, 0)] * ncol]
         return [[fvalue(attr, alpha, 0, c) for c in range(ncol)]]
+    if shape.startswith("pattern"):
+        # a ROW PATTERN of R rows, 1 < R < nrow, recycled down the table: original row r shows pattern[r mod R]
+        return [[fvalue(attr, alpha, r, c) for c in range(ncol)] for r in range(pattern_rows(shape))]
     return [[fvalue(attr, alpha, r, c) for c in range(ncol)] for r in range(n)]
+
+
+def pattern_rows(shape):
+    return int(shape[len("pattern"):])
 
 
 def key_vector(n, level):
@@ -554,7 +562,11 @@ def eval_case(case: dict) -> dict:
     if case.get("removal"):
         cnt[f"removed-{len(case['removal'])}"] = 1
     for a, s in shapes.items():
+        s = "pattern" if s.startswith("pattern") else s
         cnt[f"shape-{s}"] = cnt.get(f"shape-{s}", 0) + 1
+    for s in shapes.values():
+        if s.startswith("pattern") and any(p and p[0] % pattern_rows(s) for p in pages[1:]):
+            cnt["pattern-on-page-starting-off-cycle"] = 1
     if "matrix" in shapes.values() and any(p and p[0] % 3 for p in pages[1:]):
         cnt["matrix-on-page-starting-off-cycle"] = 1
     if any(ri["seg"] != ri["p"] for ri in rows.values()):
@@ -598,10 +610,23 @@ def ladder(n, tier):
     return [s for s in steps if s <= n] + [HUGE]
 
 
+def pattern_shapes(n, quick):
+    """row patterns of R rows, 1 < R < n.  The nrow ladders make page starts fall on every residue mod 2 and mod 3
+    (n = 9, quick: starts 1..8 / 2,4,6,8 / 4,8 / 7), so each R meets page starts that are not multiples of R."""
+    if n < 4:
+        return ()
+    if quick:
+        rs = (3,) if n == 4 else (2, 3)
+    else:
+        rs = (2, 3) if n == 4 else (2, 3, 4) if n == 9 else (3, 7)
+    return tuple(f"pattern{r}" for r in rs if r < n)
+
+
 def plan(run):
     quick = run.tier == "quick"
     sizes = (1, 4, 9) if quick else (1, 4, 9, 16, 40)
-    run.rule = ("every body attribute (25) x shape {scalar, 1 x ncol, nrow x ncol}, values alphabet[(2r+c) mod 3] over the ORIGINAL frame shape "
+    run.rule = ("every body attribute (25) x shape {scalar, 1 x ncol, nrow x ncol, row pattern of R rows with 1 < R < nrow (R in 2,3; thorough also 4,7) recycled "
+                "down the table: original row r shows pattern[r mod R]}, values alphabet[(2r+c) mod 3] over the ORIGINAL frame shape "
                 f"x rows {sizes} x nrow ladder from one row per page to one page x column removal {{none; page_by or subline_by removing 1 column at "
                 "every position; four 2-column removals (thorough: every position pair)}} incl. page_by with new_page; 3 data columns. Quick: one "
                 "attribute at a time, one of three value alphabets per attribute rotated by VERIF_SEED; thorough: all three alphabets and every "
@@ -624,9 +649,11 @@ def plan(run):
             for n in sizes:
                 if n > 9 and alpha != alphas[0]:
                     continue  # the large tables (thorough only) use the first alphabet
-                for shape in ("scalar", "row", "matrix"):
+                for shape in ("scalar", "row", "matrix") + pattern_shapes(n, quick):
                     if n == 1 and shape == "matrix":
                         continue
+                    if shape.startswith("pattern") and shape != "pattern3" and alpha != alphas[0]:
+                        continue  # thorough: the extra pattern lengths use the first alphabet
                     for rem in removal_variants(K, not quick and n <= 9):
                         if n == 1 and rem and len(rem) > 1:
                             continue
@@ -649,15 +676,17 @@ def plan(run):
         layouts = [(4, 2), (9, 4), (9, HUGE)]
         rems = [None, [["pb", 1]], [["sl", 0]], [["pb", 0], ["sl", K]]]
         for a1, a2 in itertools.combinations(ALL_ATTRS, 2):
-            for s1, s2 in itertools.product(("scalar", "row", "matrix"), repeat=2):
+            for s1, s2 in itertools.product(("scalar", "row", "matrix", "pattern3"), repeat=2):
                 for n, nrow in layouts:
+                    if n == 4 and "pattern3" in (s1, s2) and s1 != s2:
+                        continue  # mixed pattern pairs on the 9-row layouts only
                     for rem in rems:
                         c = {"n": n, "nrow": nrow, "attrs": {a1: [s1, 0], a2: [s2, 0]}}
                         if rem:
                             c["removal"] = rem
                         pairs.append(c)
         run.layer("attribute-pairs", "mc.props.c09:eval_case", pairs, chunk=40, total=len(pairs))
-    for need in ("pages=1", "pages>1", "one-row-per-page", "removed-1", "removed-2", "shape-scalar", "shape-row", "shape-matrix",
-                 "matrix-on-page-starting-off-cycle", "mid-page-segment", "metamorphic-pairs", "cells-checked"):
+    for need in ("pages=1", "pages>1", "one-row-per-page", "removed-1", "removed-2", "shape-scalar", "shape-row", "shape-matrix", "shape-pattern",
+                 "matrix-on-page-starting-off-cycle", "pattern-on-page-starting-off-cycle", "mid-page-segment", "metamorphic-pairs", "cells-checked"):
         if not run.cnt.get(need):
             run.harness_errors.append({"layer": "vacuity", "case": None, "error": f"counter {need} is zero: that part of the property was never exercised"})
